@@ -69,6 +69,11 @@ func fnValueName(v ssa.Value) string {
 		if st, ok := x.X.Type().Underlying().(*types.Struct); ok {
 			return st.Field(x.Field).Name()
 		}
+	case *ssa.Lookup:
+		// an element of a map of functions: named after the map
+		return fnValueName(x.X)
+	case *ssa.Global:
+		return x.Name()
 	}
 	return ""
 }
